@@ -19,6 +19,8 @@ func init() {
 		ruleR5(c, "C01.R5")
 		ruleR6(c, "C01.R6")
 		ruleR1(c, "C01.R1")
+		ruleW1(c, "C01.R7")
+		ruleU2(c, "C01.R8")
 	}
 }
 
@@ -409,7 +411,7 @@ func rawDiskOp(in ssa.Instruction) (string, bool) {
 
 func ruleR4(c *Ctx, id string) {
 	V, P, R := c.V, c.P, c.R
-	R.Rule(id, "nothing reads or writes the disk behind the journal: raw disk.Disk accesses in go-nfsd occur only in constructors, writes only on the format path (guarded by 'root inode absent'), reads only before the log is recovered", 5)
+	R.Rule(id, "nothing reads or writes the disk behind the journal: raw disk.Disk accesses in go-nfsd occur only in constructors, writes only on the format path (guarded by 'root inode absent'), reads only before the log is recovered", 3)
 	// raw sites
 	type site struct {
 		fn   *ssa.Function
